@@ -556,6 +556,57 @@ func runC14(t *testing.T, rng *rand.Rand, rec *sim.Rec, tier string, caseNo int)
 	}
 	rec.FP("close/stale-window=%v", staleWindow)
 	<-readerDone
+	if caseNo%2 == 1 && len(rec.Violations()) == 0 && w.Srv.AllocationCount() == 0 {
+		// The application allocates again on the same client (same 5-tuple) and talks to a peer
+		// the closed socket never knew: nothing the closed socket had going (refresh timers, channel
+		// numbers) may reach into the new allocation - for longer than every refresh interval.
+		conn2, err := rc.Client.Allocate()
+		if err != nil {
+			rec.Violate("client-api-error", "allocate-again", "second Allocate on the same client after Close failed: %v", err)
+
+			return
+		}
+		relay2 := conn2.LocalAddr().(*net.UDPAddr)
+		fip := net.IPv4(10, 2, 0, 77).To4()
+		if relay2.IP.To4() == nil {
+			fip = net.ParseIP("fd00:2::77")
+		}
+		fresh, err := w.NewPeer("fresh", fip, 7800)
+		if err != nil {
+			t.Fatal(err)
+		}
+		buf := make([]byte, 2000)
+		for k := 0; k < 4; k++ {
+			time.Sleep(pick(rng, []time.Duration{5*time.Minute + 30*time.Second, 3 * time.Minute, 40 * time.Second}))
+			tagOut, tagIn := fmt.Sprintf("again-c2p-%d", k), fmt.Sprintf("again-p2c-%d", k)
+			if _, err := conn2.WriteTo([]byte(tagOut), fresh.Addr); err != nil {
+				rec.Violate("client-api-error", "writeto-again", "WriteTo on the second allocation failed %v after it was made: %v", time.Since(start).Round(time.Second), err)
+
+				return
+			}
+			time.Sleep(500 * time.Millisecond)
+			okOut := false
+			for _, d := range fresh.UDP.Drain() {
+				okOut = okOut || (string(d.Data) == tagOut && d.Src.String() == relay2.String())
+			}
+			if !okOut {
+				rec.Violate("probe-lost-to-peer", "second-allocation", "client->peer probe %q on the client's second allocation was not delivered (round %d)", tagOut, k)
+
+				return
+			}
+			_, _ = fresh.UDP.WriteTo([]byte(tagIn), relay2)
+			_ = conn2.SetReadDeadline(time.Now().Add(2 * time.Second))
+			n, from, err := conn2.ReadFrom(buf)
+			if err != nil || string(buf[:n]) != tagIn || from.String() != fresh.Addr.String() {
+				rec.Violate("probe-lost-to-client", "second-allocation", "peer->client probe %q on the client's second allocation: ReadFrom returned %q from %v (%v)", tagIn, buf[:max(n, 0)], from, err)
+
+				return
+			}
+			rec.Ev("probes-delivered")
+		}
+		_ = conn2.Close()
+		rec.FP("second-allocation-on-the-same-client")
+	}
 	rec.SetSample(map[string]any{"pattern": pattern, "peers": npeers, "lossy": lossy, "virtual_duration": dur.String(), "probes": probes,
 		"perm_timeout": conf.perm.String(), "chan_timeout": conf.ch.String(), "lifetime": conf.life.String(), "stale_nonce_438": logs.Count("438")})
 }
